@@ -27,6 +27,9 @@ def check(prog, run):
     except L.Unanalysable as e:
         run.bad("R1", "unanalysable", "file production cannot be derived (fail closed): %s" % e)
         return
+    run.rule("R4", "both tracks' sort keys are produced by the one tick conversion of the call's own timestamp (C03.R1 instances): equal or ordered submitted times stay equal or ordered across tracks")
+    from . import c03
+    c03.tick_rule(m.cx, run, "R4")
     n = 0
     for lf in m.leaves:
         if not m.audio_present(lf):
@@ -52,6 +55,7 @@ def check(prog, run):
 class _Map:
     def __init__(self, run, mp):
         self.run, self.mp = run, mp
+        self.extra = run.extra
 
     def check(self, cond, rule, key, ok="", bad="", loc=None, how="structural"):
         return self.run.check(cond, self.mp.get(rule, rule), key, ok, bad, loc, how)
@@ -61,6 +65,9 @@ class _Map:
 
     def bad(self, rule, key, detail, loc=None, path=None):
         self.run.bad(self.mp.get(rule, rule), key, detail, loc, path)
+
+    def floor(self, rule, n, floor, what):
+        self.run.floor(self.mp.get(rule, rule), n, floor, what)
 
 
 def key_shape(m, k, parts):
